@@ -593,6 +593,8 @@ def agree(c, io, mo, ctx):
         for k in OPS:  # the real verdicts follow the real converted amounts
             if io["ord"][k] != PYOP[k](v1r, v2r):
                 return "%s: real verdict %r but the real converted amounts are %r, %r" % (k, io["ord"][k], v1r, v2r)
+        if c["cls"] == "fscalar" and _flush_affects(c):  # the model reproduces the approximation of the code
+            n["order_fscalar_converted_numerator_altered"] = n.get("order_fscalar_converted_numerator_altered", 0) + 1
         if _near(v1, v2, mag):
             n["order_near_tie"] = n.get("order_near_tie", 0) + 1
             return None
@@ -612,8 +614,12 @@ def agree(c, io, mo, ctx):
         key = "eq_%s" % ("true" if io["eq"] is True else "false")
         n[key] = n.get(key, 0) + 1
         pair = "%s==%s" % (c["a"]["c"], c["b"]["c"])
-        d = n.setdefault("eq_true_by_classes" if io["eq"] is True else "eq_false_by_classes", {})
-        d[pair] = d.get(pair, 0) + 1
+        if io["eq"] is True:
+            d = n.setdefault("eq_true_by_classes", {})
+            d[pair] = d.get(pair, 0) + 1
+        seen = ctx.__dict__.setdefault("_class_pairs", set())
+        seen.add(pair)
+        n["ordered_class_pairs_compared"] = len(seen)
         if c["_t"]["i"] == c["_t"]["j"]:
             h = n.setdefault("hash_outcome_by_class", {})
             hk = "%s:%s" % (c["a"]["c"], io["ha"])
